@@ -22,14 +22,14 @@ for l in sys.stdin:
     except: continue
     if e.get('Action')=='pass' and e.get('Test') and 'Demo' not in e['Test'] and 'demo' not in e['Test'].lower(): ok.add(e['Package']+'::'+e['Test'])
 print('\n'.join(sorted(ok)))"; }
-go test -vet=off -count=1 ./$PKG/ > /tmp/wtv/$ID-$V.clean.log 2>&1; CLEAN=$?
+go test -vet=off -count=1 ${RUNFILTER:+-run $RUNFILTER} ./$PKG/ > /tmp/wtv/$ID-$V.clean.log 2>&1; CLEAN=$?
 rm $PKG/zz_demo_test.go
 base > /tmp/wtv/$ID-$V.base0
 git apply $SRC/patch.diff || { echo "patch does not apply"; exit 2; }
 go build ./... || { echo "does not build"; exit 2; }
 base > /tmp/wtv/$ID-$V.base1
 cp $DEMO $PKG/zz_demo_test.go
-go test -vet=off -count=1 ./$PKG/ > /tmp/wtv/$ID-$V.patched.log 2>&1; PATCHED=$?
+go test -vet=off -count=1 ${RUNFILTER:+-run $RUNFILTER} ./$PKG/ > /tmp/wtv/$ID-$V.patched.log 2>&1; PATCHED=$?
 LOST=$(comm -23 /tmp/wtv/$ID-$V.base0 /tmp/wtv/$ID-$V.base1 | wc -l)
 echo "$ID-$V: demo clean rc=$CLEAN, patched rc=$PATCHED, baseline tests lost=$LOST (of $(wc -l < /tmp/wtv/$ID-$V.base0))"
 if [ $CLEAN -eq 0 ] && [ $PATCHED -ne 0 ] && [ $LOST -eq 0 ]; then
